@@ -2162,7 +2162,18 @@ class CodeGenerator(StructuredCodeGenerator):
 
         self.emit("! {{{ %s" % inst)
         self.emit("")
+
+        # Statements created by the rewriting passes (e.g. from conditional
+        # expressions) carry their guard in their condition attribute.
+        condition = getattr(inst, "condition", True)
+        if condition is not True:
+            self.emit_if_begin(condition)
+
         super().lower_inst(inst)
+
+        if condition is not True:
+            self.emit_if_end()
+
         self.emit("")
         self.emit("! }}}")
         self.emit("")
